@@ -29,12 +29,78 @@ Definition res_eqb (a b : res) : bool :=
   | _, _ => false
   end.
 
+(* the file-system calls recorded in the implementation during one operation; runs of consecutive writes are
+   given by first index and length *)
+Inductive lop := L (o : fsop) | LW (a m : nat).
+Definition expand (l : list lop) : list fsop :=
+  flat_map (fun x => match x with L o => [o] | LW a m => map FWrite (seq a m) end) l.
+
 Record obs := {
   o_res : res;
   o_target : option content;
   o_tmp : option content;
   o_mod : option mstate;
+  o_log : list lop;
 }.
+
+(* the file-system calls the model makes in one operation (same functions as step, the log instead of the state) *)
+Definition save_params_log (M : mdesc) (f : fault) (n : nat) (d : disk) (m : mstate) : list fsop :=
+  match snapshot_of M (vals m) with
+  | None => []
+  | Some data => if differs data (pdata m) then save_log f data n d else []
+  end.
+Definition save_parameters_log (M : mdesc) (f : fault) (n : nat) (d : disk) (m : mstate) : list fsop :=
+  match wdict m with [] => save_params_log M f n d m | _ => [] end.
+Definition announce_log (M : mdesc) (f : fault) (n : nat) (d : disk) (m : mstate) (p : nat) (v : val) : list fsop :=
+  if is_auto M p then save_parameters_log M f n d (set_vals m (aset p v (vals m))) else [].
+Definition wi_step_log (M : mdesc) (f : fault) (n : nat) (acc : (disk * mstate * bool) * list fsop) (pv : nat * val)
+  : (disk * mstate * bool) * list fsop :=
+  let '(a, l) := acc in
+  let '(d, m, dead) := a in
+  (wi_step M f n a pv,
+   if dead then l else
+   match aget (fst pv) (wdict m) with
+   | None => l
+   | Some v => l ++ announce_log M f n d (set_wdict m (adel (fst pv) (wdict m))) (fst pv) v
+   end).
+Definition write_init_log (M : mdesc) (f : fault) (n : nat) (d : disk) (m : mstate) : list fsop :=
+  snd (fold_left (wi_step_log M f n) (wdict m) ((d, m, false), [])).
+
+Definition step_log (M : mdesc) (s : st) (o : op) : list fsop :=
+  match o with
+  | OCorrupt _ => []
+  | OInit cfg f n =>
+      let '(l, k) := pre_ops f init_pre in
+      match k with
+      | Some _ => l
+      | None => match load_file M (dk s) with
+                | LOk raw loaded => l ++ save_params_log M f n (dk s) (init_state M cfg raw loaded)
+                end
+      end
+  | _ =>
+      match md s with
+      | None => []
+      | Some m =>
+          match o with
+          | OSet p v f n => announce_log M f n (dk s) m p v
+          | OSave f n => save_parameters_log M f n (dk s) m
+          | OWriteInit f n => write_init_log M f n (dk s) m
+          | OLoad f n =>
+              let '(l, k) := pre_ops f load_pre in
+              match k with
+              | Some _ => l
+              | None => match load_file M (dk s) with
+                        | LOk raw loaded =>
+                            l ++ write_init_log M f n (dk s) (fold_left (load_step M) loaded (set_pdata m (Some raw)))
+                        end
+              end
+          | OReset f n =>
+              write_init_log M f n (dk s)
+                (set_wdict m (fold_left (fun acc kv => aset (fst kv) (snd kv) acc) (initd m) (wdict m)))
+          | _ => []
+          end
+      end
+  end.
 
 Record case := {
   c_M : mdesc;
@@ -45,6 +111,8 @@ Record case := {
 Definition mstate_eqb (a b : mstate) : bool :=
   amap_eqb (vals a) (vals b) && amap_eqb (wdict a) (wdict b)
   && opt_eqb amap_eqb (pdata a) (pdata b) && amap_eqb (initd a) (initd b).
+
+Definition log_eqb (a b : list fsop) : bool := list_eqb fsop_eqb a b.
 
 Definition obs_ok (s : st) (r : res) (o : obs) : bool :=
   res_eqb r (o_res o)
@@ -57,27 +125,28 @@ Fixpoint run_check (M : mdesc) (s : st) (ops : list op) (os : list obs) : bool :
   | [], [] => true
   | o :: ops', ob :: os' =>
       let '(s', r) := step M s o in
-      obs_ok s' r ob && run_check M s' ops' os'
+      obs_ok s' r ob && log_eqb (step_log M s o) (expand (o_log ob)) && run_check M s' ops' os'
   | _, _ => false
   end.
 
 Definition check_case (c : case) : bool := run_check (c_M c) st0 (c_ops c) (c_obs c).
 
 (* what the model does, for diagnosis in replay files *)
-Fixpoint model_trace (M : mdesc) (s : st) (ops : list op) : list (res * st) :=
+Fixpoint model_trace (M : mdesc) (s : st) (ops : list op) : list (res * st * list fsop) :=
   match ops with
   | [] => []
-  | o :: ops' => let '(s', r) := step M s o in (r, s') :: model_trace M s' ops'
+  | o :: ops' => let '(s', r) := step M s o in (r, s', step_log M s o) :: model_trace M s' ops'
   end.
-Definition model_result (c : case) : list (res * st) := model_trace (c_M c) st0 (c_ops c).
+Definition model_result (c : case) : list (res * st * list fsop) := model_trace (c_M c) st0 (c_ops c).
 
-(* per operation: which component of the observation differs (result, target, tmp, module) *)
-Fixpoint diag (M : mdesc) (s : st) (ops : list op) (os : list obs) : list (bool * bool * bool * bool) :=
+(* per operation: which component of the observation differs (result, target, tmp, module, call sequence) *)
+Fixpoint diag (M : mdesc) (s : st) (ops : list op) (os : list obs) : list (bool * bool * bool * bool * bool) :=
   match ops, os with
   | o :: ops', ob :: os' =>
       let '(s', r) := step M s o in
       (res_eqb r (o_res ob), opt_eqb content_eqb (target (dk s')) (o_target ob),
-       opt_eqb content_eqb (tmp (dk s')) (o_tmp ob), opt_eqb mstate_eqb (md s') (o_mod ob)) :: diag M s' ops' os'
+       opt_eqb content_eqb (tmp (dk s')) (o_tmp ob), opt_eqb mstate_eqb (md s') (o_mod ob),
+       log_eqb (step_log M s o) (expand (o_log ob))) :: diag M s' ops' os'
   | _, _ => []
   end.
 Definition diag_case (c : case) := diag (c_M c) st0 (c_ops c) (c_obs c).
